@@ -70,6 +70,12 @@ def run(ctx):
         ctx.floor("C05.B1 compile_* functions" + tag, n_neutral, 12)
         ctx.count("C05.B1 scope/instruction emission sites" + tag, an.instr_sites)
         ctx.count("C05.B1 join points checked" + tag, sum(len(v) for v in an.states.values()))
+        # ---- B11: operand-stack balance of the generator (mjsa/operands.py): every statement leaves the interpreter's
+        # operand stack as it found it, every expression helper leaves exactly its value, and the fall-through effects
+        # the accounting uses are what the interpreter's handlers do
+        from .. import operands
+        n11 = operands.check_statements(ctx, prog, tag)
+        ctx.floor("C05.B11 statement kinds / expression helpers / handler effects accounted for" + tag, n11, 40 if cname != "MIN" else 20)
         # expected bracket summaries of the helper pairs (measured on the tree, confirmed by reading)
         pairs = {"start_for_loop": ((1, 0, 0), ("Loop",), ()), "end_for_loop": ((-1, 0, 0), (), ("Loop",)),
                  "start_if": ((0, 0, 0), ("Branch",), ()), "end_if": ((0, 0, 0), (), ("Branch",)),
